@@ -23,7 +23,7 @@ def ref_root(b, local, depth=8):
             break
         if rv["k"] == "ref":
             p = rv["p"]
-        elif rv["k"] == "use" and op_place(rv["op"]) is not None:
+        elif rv["k"] in ("use", "cast") and op_place(rv["op"]) is not None:
             p = op_place(rv["op"])
         else:
             break
@@ -43,7 +43,7 @@ def ref_chain(b, local, depth=10):
         rv = d[3]["rv"]
         if rv["k"] == "ref":
             p = rv["p"]
-        elif rv["k"] == "use" and op_place(rv["op"]) is not None:
+        elif rv["k"] in ("use", "cast") and op_place(rv["op"]) is not None:
             p = op_place(rv["op"])
         else:
             break
